@@ -149,7 +149,9 @@ Witnesses == {
   << CV(2, MIN32), C32(-1), Bin(2, "rem_s"), End >>,
   << C32(300), CV(4, MinVal(4)), C64(-1), Bin(4, "rem_s"), Store(4, 8, 0), C32(300), Load(2, 4, FALSE, 0), End >>,
   \* D4: br_if to the function label clobbers local 0
-  << C32(42), C32(0), BrIf(0), Drop, LGet(0), End >> }
+  << C32(42), C32(0), BrIf(0), Drop, LGet(0), End >>,
+  \* D5: the preserving copy of a local.set inside a loop runs again on the next iteration and overwrites the preserved value
+  << LGet(0), Lop(0), C32(5), LSet(0), LGet(1), C32(-1), Bin(2, "add"), LTee(1), BrIf(0), End, End >> }
 
 B32 == { I32(0), I32(1), I32(2), I32(-1), I32(-2), MIN32, MaxVal(2), I32(31), I32(32), I32(33), I32(65535), I32(65536), I32(-65536), <<21845, 21845>> }
 B64 == { I64(0), I64(1), I64(-1), I64(-2), MinVal(4), MaxVal(4), I64(63), I64(64), I64(65), <<0, 0, 1, 0>>, <<65535, 65535, 0, 0>>,
@@ -184,6 +186,8 @@ StructBodies(dummy) ==
   \cup { c \o << Iff(0) >> \o a \o << End >> \o t : c \in Conds, a \in Snip, t \in Tails }
   \cup { << Blk(0) >> \o a \o c \o << BrIf(0) >> \o b \o << End >> \o t : c \in Conds, a \in Snip, b \in Snip, t \in Tails }
   \cup { << Lop(0) >> \o a \o << LGet(1), C32(-1), Bin(2, "add"), LTee(1), BrIf(0), End >> \o t : a \in Snip, t \in Tails }
+  \cup { p \o << Lop(0) >> \o a \o << LGet(1), C32(-1), Bin(2, "add"), LTee(1), BrIf(0), End >> \o t :     \* a value pushed before a counting loop and used after it (D5)
+            p \in { << LGet(0) >>, << LGet(1) >>, << C32(7) >> }, a \in Snip, t \in { << End >>, << Drop, LGet(0), End >>, << LGet(0), Bin(2, "add"), End >> } }
   \cup { << Blk(0), Blk(0) >> \o c \o << BrTab(<<0, 1>>, 1) >> \o a \o << End >> \o b \o << End >> \o t : c \in Conds, a \in Snip, b \in Snip, t \in Tails }
   \cup { c \o << Iff(2) >> \o a \o << Els >> \o b \o << End, End >> : c \in Conds, a \in VSnip, b \in VSnip }
   \cup { c \o << Iff(2) >> \o a \o << Els >> \o b \o << End, LGet(0), Bin(2, "add"), End >> : c \in Conds, a \in VSnip, b \in VSnip }
